@@ -66,8 +66,18 @@ type replayFile struct {
 
 var verifDir = "/verif"
 
+// outDir receives everything a run writes (evidence, replays, scratch builds). It is
+// verifDir unless VERIF_OUT is set (used to run the checks against a scratch worktree
+// carrying a seeded change without touching /verif's evidence).
+func outDir() string {
+	if o := os.Getenv("VERIF_OUT"); o != "" {
+		return o
+	}
+	return verifDir
+}
+
 func workDir() string {
-	d := filepath.Join(verifDir, ".work")
+	d := filepath.Join(outDir(), ".work")
 	os.MkdirAll(d, 0755)
 	return d
 }
@@ -77,6 +87,7 @@ type nativeBuilder struct {
 	repo, hdir string
 	bins       map[string]string
 	errs       map[string]string
+	dropped    map[string]string // overlay destinations that do not type-check on this tree
 	BuildSecs  float64
 }
 
@@ -111,7 +122,10 @@ func (nb *nativeBuilder) bin(pkg0 string, asan bool) (string, error) {
 			}
 			others, _ := filepath.Glob(filepath.Join(nb.hdir, d.Name(), "*.go"))
 			for _, f := range others {
-				repl[filepath.Join(nb.repo, d.Name(), "zz_verif_"+filepath.Base(f))] = f
+				dst := filepath.Join(nb.repo, d.Name(), "zz_verif_"+filepath.Base(f))
+				if _, bad := nb.dropped[dst]; !bad {
+					repl[dst] = f
+				}
 			}
 		}
 	}
@@ -119,7 +133,11 @@ func (nb *nativeBuilder) bin(pkg0 string, asan bool) (string, error) {
 	var names []string
 	pkgName := ""
 	for _, f := range files {
-		repl[filepath.Join(nb.repo, pkg, "zz_verif_"+filepath.Base(f))] = f
+		dst := filepath.Join(nb.repo, pkg, "zz_verif_"+filepath.Base(f))
+		if _, bad := nb.dropped[dst]; bad {
+			continue
+		}
+		repl[dst] = f
 		b, _ := os.ReadFile(f)
 		for _, m := range funcRe.FindAllStringSubmatch(string(b), -1) {
 			names = append(names, m[1])
@@ -209,7 +227,7 @@ func (nb *nativeBuilder) replay(pkg, replayPath string, asan ...bool) (nativeRes
 }
 
 func writeReplay(prop string, h harnessSpec, tier int, label, detail string, model map[string]uint64, choices []int, observes interface{}, decisions []interp.Decision, final bool) string {
-	dir := filepath.Join(verifDir, "replays")
+	dir := filepath.Join(outDir(), "replays")
 	if !final {
 		dir = workDir()
 	}
@@ -302,13 +320,16 @@ func runCheck(args []string) int {
 		fmt.Fprintln(os.Stderr, err)
 		return 2
 	}
-	env, err := interp.Load(*repo, ov, patterns, "verif")
+	env, dropped, err := interp.LoadTolerant(*repo, ov, patterns, "verif")
+	for f, e := range dropped {
+		fmt.Printf("HARNESS-FILE-DROPPED %s: does not type-check against the current tree: %s\n", filepath.Base(f), e)
+	}
 	if err != nil {
 		fmt.Fprintln(os.Stderr, "gosym: load failed (the tree must compile with the harness overlay):", err)
 		return 2
 	}
 	env.Tier = tier
-	nb := &nativeBuilder{repo: *repo, hdir: hdir, bins: map[string]string{}, errs: map[string]string{}}
+	nb := &nativeBuilder{repo: *repo, hdir: hdir, bins: map[string]string{}, errs: map[string]string{}, dropped: dropped}
 
 	type hres struct {
 		Spec       harnessSpec            `json:"spec"`
@@ -353,6 +374,12 @@ func runCheck(args []string) int {
 		}
 		fn, err := env.Harness(h.Pkg, h.Name)
 		if err != nil {
+			if len(dropped) > 0 {
+				inconclusive++
+				lines = append(lines, fmt.Sprintf("INCONCLUSIVE harness=%s: its source file does not type-check against the current tree (see HARNESS-FILE-DROPPED)", h.Name))
+				hresults = append(hresults, hres{Spec: h, Stopped: "harness file dropped: does not type-check against the current tree"})
+				continue
+			}
 			fmt.Fprintln(os.Stderr, "gosym:", err)
 			return 2
 		}
@@ -569,8 +596,8 @@ func runCheck(args []string) int {
 		"violations": violations,
 	}
 	eb, _ := json.MarshalIndent(ev, "", " ")
-	os.MkdirAll(filepath.Join(verifDir, "evidence"), 0755)
-	os.WriteFile(filepath.Join(verifDir, "evidence", *prop+".json"), eb, 0644)
+	os.MkdirAll(filepath.Join(outDir(), "evidence"), 0755)
+	os.WriteFile(filepath.Join(outDir(), "evidence", *prop+".json"), eb, 0644)
 	fmt.Printf("%s %s: harnesses=%d paths=%d violations=%d inconclusive=%d native_validated=%d wall=%.1fs\n", *prop, *tierName, len(hresults), totalPaths, violations, inconclusive, nativeOK, time.Since(t0).Seconds())
 	if violations > 0 {
 		return 1
